@@ -137,6 +137,9 @@ func alphaFinish(u *Universe, t *keyTable) {
 	idx := make([]int, u.NKeys)
 	for i, s := range t.keys {
 		u.KeyStr[i] = fmt.Sprintf("%q", s)
+		if len(s) > 160 {
+			u.KeyStr[i] = fmt.Sprintf("%q…%q(%d bytes)", s[:24], s[len(s)-8:], len(s))
+		}
 		u.Class[i] = i
 		u.OrigBytes[i] = []byte(s)
 		idx[i] = i
@@ -423,6 +426,7 @@ func AlphaFamilies(tier string) []AlphaSpec {
 			Name:   "SHORT-A",
 			Free:   []string{"", "a", "b", "ab", "abc", "abd", "b\xff", "\x80"},
 			Probes: []string{"c", "abe", "\xff", "a\x01"},
+			Bounds: []string{"ab\x00", "a\x00", "\x00"}, // bounds that are a stored key plus the byte the tree appends itself
 		}, AlphaSpec{
 			Name:   "SHORT-B",
 			Free:   []string{"", "ab", "abc", "\xff\xff", "\x01", "\x80", "b\xff", "a"},
@@ -439,6 +443,7 @@ func AlphaFamilies(tier string) []AlphaSpec {
 		Name:     "SIBLING", // prefix argument that continues like a sibling's subtree (D5 shape)
 		Free:     []string{P(10) + "bab1", P(10) + "bab2", P(10) + "aab1", P(10) + "aab2", P(10) + "cab1", "z"},
 		Probes:   []string{P(10) + "xab1", P(10) + "ba", P(10)},
+		Bounds:   []string{P(10) + "bab1\x00", "z\x00"},
 		Prefixes: []string{P(10) + "bab", P(10) + "aab", P(10) + "b", P(10) + "x", P(10) + "xab", P(9), P(11)},
 	})
 	out = append(out, AlphaSpec{
@@ -450,6 +455,11 @@ func AlphaFamilies(tier string) []AlphaSpec {
 		Name:  "VALS", // two values: overwrites are transitions of their own
 		Free:  []string{"", "k", "ka", "kb", P(11) + "1", P(11) + "2"},
 		NVals: 2,
+	})
+	out = append(out, AlphaSpec{
+		Name:   "HUGE", // key lengths around and beyond 64 KiB (a length kept in 16 bits wraps here); overwrites are transitions
+		Free:   []string{rep('h', 65534), rep('h', 65535), rep('h', 70000)},
+		Probes: []string{rep('h', 65533), rep('h', 65536)}, NoAutoP: true, NVals: 2,
 	})
 	out = append(out, AlphaSpec{
 		Name:   "DEEP3", // three stacked long paths, keys of very different lengths, leaf and inner children mixed
